@@ -114,9 +114,33 @@ def header_nodes(doc_nodes):
 
 
 def traverse_errors(doc, nodes):
-    from mistletoe import utils
+    from mistletoe import utils as real_utils
     B, S = _kinds()
     errs = []
+    cap = 4 * len(nodes) + 1000
+
+    class _Bounded:
+        """utils.traverse with a bound on what is consumed: a traversal that yields far more than the tree holds is
+        reported, not followed to the end (it may be exponential or endless)"""
+        @staticmethod
+        def traverse(*a, **kw):
+            n = 0
+            for r in real_utils.traverse(*a, **kw):
+                n += 1
+                if n > cap:
+                    raise _Runaway()
+                yield r
+    try:
+        return _traverse_errors(doc, nodes, _Bounded, B, S, errs)
+    except _Runaway:
+        return errs + [('traverse', 'traversal yields more than %d results for a tree of %d tokens' % (cap, len(nodes)))]
+
+
+class _Runaway(Exception):
+    pass
+
+
+def _traverse_errors(doc, nodes, utils, B, S, errs):
     own = collections.Counter((id(n), id(p) if p is not None else None, d) for n, p, d in nodes if p is not None)
     got = collections.Counter((id(r.node), id(r.parent) if r.parent is not None else None, r.depth) for r in utils.traverse(doc))
     if own != got:
